@@ -14,7 +14,8 @@ from __future__ import annotations
 
 import ast
 
-from ..loader import AnalysisError, dotted, norm, walk_no_nested
+from ..flow import Defs, Scope, cond, iterations
+from ..loader import FuncInfo, dotted, norm, walk_no_nested
 from ..report import Ctx
 from ..selftest import Mutant
 
@@ -37,17 +38,13 @@ DECLINED = [
     "pickle determinism of arbitrary objects on the cloudpickle fallback branch",
 ]
 
-SUBCLASS_OF = {  # sub -> super, builtins only (frozen table; typeshed says the same)
-    "collections.OrderedDict": "dict", "collections.defaultdict": "dict", "collections.Counter": "dict",
-    "OrderedDict": "dict", "defaultdict": "dict", "Counter": "dict", "bool": "int",
-}
-UNORDERED = {"dict", "set", "frozenset", "collections.defaultdict", "collections.Counter", "defaultdict", "Counter"}
-ORDERED = {"list", "tuple", "collections.deque", "deque", "collections.OrderedDict", "OrderedDict"}
+SUBCLASS_OF = {"OrderedDict": "dict", "defaultdict": "dict", "Counter": "dict", "bool": "int"}  # sub -> super, builtins only (frozen table; typeshed says the same)
+UNORDERED = {"dict", "set", "frozenset", "defaultdict", "Counter"}
+ORDERED = {"list", "tuple", "deque", "OrderedDict"}
 # element type hashable by construction: reason
 FLAT_OK = {
     "bytearray": "elements are ints",
-    "array.array": "typed array of numbers / unicode characters",
-    "collections.Counter": "keys are hashable by the dict contract and counts are numbers",
+    "array": "typed array of numbers / unicode characters",
     "Counter": "keys are hashable by the dict contract and counts are numbers",
 }
 IDENTITY = {  # natively handled third-party types: attributes that decide equality, with the reason
@@ -59,13 +56,16 @@ CONVERTERS = {"to_hashable", "_hashable_iterable", "_hashable_mapping"}
 SORTERS = {"sorted", "_sorted"}
 
 
+def _last(name: str) -> str:
+    return name.rsplit(".", 1)[-1]
+
+
 def _types_tested(test: ast.AST) -> list[str]:
-    """Types of an `isinstance(obj, T)` test (T may be `A | B`, a tuple, or sys.modules['x'].Y)."""
+    """Class names (last component) of an `isinstance(obj, T)` test (T may be `A | B`, a tuple, or <module>.Y)."""
     out: list[str] = []
     for c in ast.walk(test):
         if isinstance(c, ast.Call) and dotted(c.func) == "isinstance" and len(c.args) == 2:
-            t = c.args[1]
-            parts = []
+            parts: list[ast.AST] = []
 
             def split(x: ast.AST) -> None:
                 if isinstance(x, ast.BinOp) and isinstance(x.op, ast.BitOr):
@@ -77,12 +77,12 @@ def _types_tested(test: ast.AST) -> list[str]:
                 else:
                     parts.append(x)
 
-            split(t)
+            split(c.args[1])
             for p in parts:
                 name = dotted(p)
                 if not name and isinstance(p, ast.Attribute):
                     name = p.attr  # sys.modules["numpy"].ndarray
-                out.append(name)
+                out.append(_last(name))
     return out
 
 
@@ -94,8 +94,7 @@ def _branches(fn_node: ast.FunctionDef) -> list[tuple[list[str], ast.Return, ast
             if isinstance(st, ast.If):
                 types = _types_tested(st.test)
                 if types:
-                    rets = [r for r in ast.walk(st) if isinstance(r, ast.Return)]
-                    for r in rets:
+                    for r in [r for r in ast.walk(st) if isinstance(r, ast.Return)]:
                         out.append((types, r, st))
                 else:
                     visit(st.body)
@@ -106,44 +105,109 @@ def _branches(fn_node: ast.FunctionDef) -> list[tuple[list[str], ast.Return, ast
 
 
 def _calls(node: ast.AST, names: set[str]) -> list[ast.Call]:
-    return [c for c in ast.walk(node) if isinstance(c, ast.Call) and dotted(c.func).rsplit(".", 1)[-1] in names]
+    return [c for c in ast.walk(node) if isinstance(c, ast.Call) and _last(dotted(c.func)) in names]
 
 
-def _branch_exprs(ret: ast.Return, if_node: ast.If) -> list[ast.AST]:
-    """The returned expression plus the definitions of local names it uses inside the branch."""
+class _Rename(ast.NodeTransformer):
+    def __init__(self, mapping: dict[str, str]) -> None:
+        self.mapping = mapping
+
+    def visit_Name(self, node: ast.Name):  # noqa: N802
+        return ast.copy_location(ast.Name(id=self.mapping.get(node.id, node.id), ctx=node.ctx), node)
+
+
+def _payload(ctx: Ctx, fn: FuncInfo, ret: ast.Return, if_node: ast.If) -> tuple[list[ast.AST], list[ast.AST]]:
+    """(expressions that make up the key of this branch, statement regions they live in).
+
+    The returned expression, the definitions (inside the branch) of the local names it uses, and - when the payload is
+    computed by a private helper of the module that receives `obj` - the helper's body with its parameter renamed to `obj`.
+    """
+    import copy
+
     exprs: list[ast.AST] = [ret.value] if ret.value is not None else []
+    regions: list[ast.AST] = [if_node]
     names = {n.id for n in ast.walk(ret) if isinstance(n, ast.Name)}
-    for st in ast.walk(if_node):
-        if isinstance(st, ast.Assign) and any(isinstance(t, ast.Name) and t.id in names for t in st.targets):
-            exprs.append(st.value)
-    return exprs
+    for _ in range(2):
+        for st in ast.walk(if_node):
+            if isinstance(st, ast.Assign) and any(isinstance(t, ast.Name) and t.id in names for t in st.targets) and st.value not in exprs:
+                exprs.append(st.value)
+                names |= {n.id for n in ast.walk(st.value) if isinstance(n, ast.Name)}
+    for e in list(exprs):
+        for c in [c for c in ast.walk(e) if isinstance(c, ast.Call)]:
+            name = _last(dotted(c.func))
+            if name in CONVERTERS or name in SORTERS or name.endswith("_key") or not any(isinstance(a, ast.Name) and a.id == "obj" for a in c.args):
+                continue
+            for callee in ctx.cg.resolve_callable(fn, c.func):
+                if callee.module.name != fn.module.name:
+                    continue
+                ps = callee.param_names()
+                mapping = {ps[i]: "obj" for i, a in enumerate(c.args) if isinstance(a, ast.Name) and a.id == "obj" and i < len(ps)}
+                body = _Rename(mapping).visit(copy.deepcopy(callee.node))
+                regions.append(body)
+                for st in ast.walk(body):
+                    if isinstance(st, ast.Return) and st.value is not None:
+                        exprs.append(st.value)
+                    elif isinstance(st, ast.Assign):
+                        exprs.append(st.value)
+    return exprs, regions
 
 
-def check(ctx: Ctx) -> None:  # noqa: C901, PLR0912, PLR0915
+def _type_valued(ctx: Ctx, fn: FuncInfo, e: ast.AST, depth: int = 7) -> bool:
+    """`e` can be exactly `type(obj)` (possibly through locals or a private helper that returns type(<its parameter>))."""
+    if depth == 0:
+        return False
+    if isinstance(e, ast.Call) and dotted(e.func) == "type" and len(e.args) == 1:
+        return True
+    if isinstance(e, ast.Name):
+        defs = [s.value for s in walk_no_nested(fn.node) if isinstance(s, (ast.Assign, ast.AnnAssign)) and s.value is not None
+                and e.id in {getattr(t, "id", None) for t in (s.targets if isinstance(s, ast.Assign) else [s.target])}]
+        return any(_type_valued(ctx, fn, d, depth - 1) for d in defs)
+    if isinstance(e, ast.Call):
+        for callee in ctx.cg.resolve_callable(fn, e.func):
+            if callee.module.name == fn.module.name:
+                return any(_type_valued(ctx, callee, r.value, depth - 1) for r in ast.walk(callee.node) if isinstance(r, ast.Return) and r.value is not None)
+    return False
+
+
+def _callable_text(ctx: Ctx, fn: FuncInfo, e: ast.AST) -> str:
+    if isinstance(e, ast.Lambda):
+        return norm(e)
+    if isinstance(e, ast.Name):
+        if e.id in fn.nested:
+            return norm(fn.nested[e.id].node)
+        for callee in ctx.cg.resolve_callable(fn, e):
+            return norm(callee.node)
+    return norm(e)
+
+
+def _to_hashable_facts(ctx: Ctx):
     fn = ctx.prog.func(f"{MOD}.to_hashable")
-    branches = _branches(fn.node)
+    return fn, _branches(fn.node)
+
+
+def rule_tagged(ctx: Ctx) -> None:
+    fn, branches = _to_hashable_facts(ctx)
     ctx.floor("branches", len(branches), 11)
-    marker_names = {"m", "_HASH_MARKER"}
-
-    # ---- 1 tagged: every return after the hashable-as-is shortcut
-    all_returns = [r for r in walk_no_nested(fn.node) if isinstance(r, ast.Return)]
-    n_tag = 0
-    for r in all_returns:
-        if isinstance(r.value, ast.Name) and r.value.id == "obj":
+    d = Defs(fn)
+    params = set(fn.param_names())
+    n = 0
+    for r in [r for r in walk_no_nested(fn.node) if isinstance(r, ast.Return) and r.value is not None]:
+        if isinstance(r.value, ast.Name) and r.value.id in params:
             continue  # hashable as is
-        n_tag += 1
+        n += 1
         v = r.value
-        ok = isinstance(v, ast.Tuple) and len(v.elts) == 3 and isinstance(v.elts[0], ast.Name) and v.elts[0].id in marker_names \
-            and isinstance(v.elts[1], ast.Name) and v.elts[1].id == "tp"
-        ctx.add("1-tagged", fn, r, ok, "key is (marker, type, payload)" if ok else "converted key is not tagged with the marker and the value's type: look-alike containers collide")
-    ctx.floor("1-tagged", n_tag, 12)
-    # tp must be the value's type
-    tp_def = [s for s in walk_no_nested(fn.node) if isinstance(s, (ast.Assign, ast.AnnAssign)) and "tp" in {getattr(t, "id", None) for t in (s.targets if isinstance(s, ast.Assign) else [s.target])}]
-    tp_def.sort(key=lambda s_: s_.lineno)
-    ok = bool(tp_def) and norm(tp_def[0].value) == "type(obj)" and all("tp" in {n_.id for n_ in ast.walk(d.value) if isinstance(n_, ast.Name)} for d in tp_def[1:])
-    ctx.add("1-tagged", fn, tp_def[0] if tp_def else fn.node, ok, "tp = type(obj)" if ok else "`tp` is no longer the exact type of the value", key="tp-def")
+        if not isinstance(v, ast.Tuple):
+            ctx.add("1-tagged", fn, r, None, "UNDECIDED: the returned key is not a tuple literal", key="tag " + norm(v)[:60])
+            continue
+        marker = len(v.elts) >= 1 and "_HASH_MARKER" in norm(d.resolve(v.elts[0]))
+        typed = len(v.elts) == 3 and _type_valued(ctx, fn, v.elts[1])
+        ctx.tri("1-tagged", fn, r, marker and typed, len(v.elts) != 3 or not typed, "key is (marker, type(obj), payload)",
+                "converted key is not tagged with the marker and the exact type of the value: look-alike values of different types collide", key="tag " + norm(v)[:60])
+    ctx.floor("1-tagged", n, 12)
 
-    # ---- 2 dispatch order
+
+def rule_dispatch(ctx: Ctx) -> None:
+    fn, branches = _to_hashable_facts(ctx)
     order: list[str] = []
     for types, _r, _i in branches:
         for t in types:
@@ -158,12 +222,12 @@ def check(ctx: Ctx) -> None:  # noqa: C901, PLR0912, PLR0915
             ctx.add("2-dispatch", fn, node, ok, f"`{sub}` is tested before its superclass `{sup}`" if ok else f"`{sup}` is tested before its subclass `{sub}`: {sub} values are keyed as plain {sup}", key=f"{sub}<{sup}")
     ctx.floor("2-dispatch", n2, 3)
 
-    # ---- 3 order policy and 4 recursive conversion
-    helpers = {n: ctx.prog.func(f"{MOD}.{n}") for n in ("_hashable_iterable", "_hashable_mapping")}
+
+def rule_order_and_recursion(ctx: Ctx) -> None:  # noqa: C901, PLR0912
+    fn, branches = _to_hashable_facts(ctx)
     n3 = n4 = 0
     for types, ret, if_node in branches:
-        exprs = _branch_exprs(ret, if_node)
-        text = " ".join(ast.unparse(e) for e in exprs)
+        exprs, regions = _payload(ctx, fn, ret, if_node)
         sorted_here = any(_calls(e, SORTERS) for e in exprs) or any(
             any(k.arg == "sort" and isinstance(k.value, ast.Constant) and k.value.value is True for k in c.keywords)
             for e in exprs for c in _calls(e, CONVERTERS))
@@ -174,10 +238,9 @@ def check(ctx: Ctx) -> None:  # noqa: C901, PLR0912, PLR0915
             elif t in ORDERED:
                 n3 += 1
                 ctx.add("3-order", fn, ret, not sorted_here, f"order-significant `{t}` keeps its order" if not sorted_here else f"order-significant `{t}` is sorted: values differing in order collide", key=f"order {t}")
-        # 4: the payload embeds element values -> must go through a converter
         for t in types:
             if t in ("ndarray", "Series", "DataFrame"):
-                continue  # handled by rule 6 / below
+                continue
             n4 += 1
             converted = any(_calls(e, CONVERTERS) for e in exprs)
             if t in FLAT_OK:
@@ -186,130 +249,206 @@ def check(ctx: Ctx) -> None:  # noqa: C901, PLR0912, PLR0915
                 ctx.add("4-recursive", fn, ret, converted, f"`{t}` elements are converted recursively" if converted else f"`{t}` elements are embedded unconverted: nested unhashable values make the key unhashable", key=f"rec {t}")
         if "ndarray" in types:
             n4 += 1
-            flat = [c for e in [if_node] for c in ast.walk(e) if isinstance(c, ast.Call) and dotted(c.func) == "tuple" and c.args and "flatten" in ast.unparse(c.args[0])]
-            guarded = True
+            flat = [c for e in exprs for c in ast.walk(e) if isinstance(c, ast.Call) and dotted(c.func) in ("tuple", "list") and c.args and any(w in norm(c.args[0]) for w in ("flatten", "ravel", "flat", "tolist"))]
+            unguarded = []
             for c in flat:
                 g = False
-                for inner in ast.walk(if_node):
-                    if isinstance(inner, ast.If) and inner is not if_node and ("hasobject" in ast.unparse(inner.test) or "object" in ast.unparse(inner.test)):
-                        if any(x is c for st in inner.orelse for x in ast.walk(st)) and "not" not in ast.unparse(inner.test):
-                            g = True
-                        if any(x is c for st in inner.body for x in ast.walk(st)) and "not" in ast.unparse(inner.test):
-                            g = True
-                    if isinstance(inner, ast.IfExp) and "hasobject" in ast.unparse(inner.test) and any(x is c for x in ast.walk(inner.orelse)):
-                        g = True
-                guarded = guarded and g
-            converted = bool(_calls(if_node, CONVERTERS))
-            ok = (not flat and converted) or (bool(flat) and guarded and converted)
-            ctx.add("4-recursive", fn, ret, ok, "ndarray elements: flat only for non-object dtypes, converted otherwise" if ok else
-                    "ndarray elements are embedded unconverted also for object arrays (lists/dicts inside make the key unhashable)", key="rec ndarray")
-    # helpers really recurse
-    for hname, h in helpers.items():
+                for region in regions:
+                    for inner in ast.walk(region):
+                        if isinstance(inner, (ast.If, ast.IfExp)) and "hasobject" in norm(inner.test) or (isinstance(inner, (ast.If, ast.IfExp)) and "dtype == object" in norm(inner.test)):
+                            _t, pol = cond(inner.test)
+                            body = inner.body if isinstance(inner.body, list) else [inner.body]
+                            orelse = inner.orelse if isinstance(inner.orelse, list) else [inner.orelse]
+                            safe_arm = orelse if pol else body
+                            if any(x is c for st in safe_arm for x in ast.walk(st)):
+                                g = True
+                if not g:
+                    unguarded.append(c)
+            converted = any(_calls(e, CONVERTERS) for e in exprs)
+            ctx.tri("4-recursive", fn, unguarded[0] if unguarded else ret, converted and not unguarded, bool(unguarded),
+                    "ndarray elements: flat only for non-object dtypes, converted otherwise",
+                    f"`{norm(unguarded[0]) if unguarded else ''}` embeds ndarray elements unconverted also for object arrays (lists/dicts inside make the key unhashable)",
+                    "ndarray element handling not recognised", key="rec ndarray")
+    for hname in ("_hashable_iterable", "_hashable_mapping"):
+        h = ctx.prog.func(f"{MOD}.{hname}")
         n4 += 1
         ok = bool(_calls(h.node, {"to_hashable"}))
         ctx.add("4-recursive", h, h.node, ok, f"{hname} applies to_hashable to each element" if ok else f"{hname} no longer converts the elements", key=f"def {hname}")
-    mp = helpers["_hashable_mapping"]
-    ret = [r for r in walk_no_nested(mp.node) if isinstance(r, ast.Return)][-1]
-    gen = next((g for g in ast.walk(ret) if isinstance(g, (ast.GeneratorExp, ast.ListComp))), None)
-    ok = False
-    if gen is not None and isinstance(gen.generators[0].target, ast.Tuple) and isinstance(gen.elt, ast.Tuple):
-        kname = getattr(gen.generators[0].target.elts[0], "id", None)
-        ok = any(isinstance(e, ast.Name) and e.id == kname for e in gen.elt.elts) and bool(_calls(gen.elt, {"to_hashable"}))
-    ctx.add("4-recursive", mp, ret, ok, "mapping keys are kept next to their converted values" if ok else "mapping keys are dropped from the key", key="mapping keeps keys")
+    mp = ctx.prog.func(f"{MOD}._hashable_mapping")
+    its = [it for it in iterations(mp.node) if isinstance(it["target"], ast.Tuple) and len(it["target"].elts) == 2]
+    gens = [it for it in its if it["kind"] == "comp" and isinstance(getattr(it["node"], "elt", None), ast.Tuple)]
+    if gens:
+        it = gens[0]
+        kname = getattr(it["target"].elts[0], "id", None)
+        keeps = any(isinstance(e, ast.Name) and e.id == kname for e in it["node"].elt.elts)
+        ctx.add("4-recursive", mp, it["node"], keeps, "mapping keys are kept next to their converted values" if keeps else "mapping keys are dropped from the key: mappings with equal values collide", key="mapping keeps keys")
+    else:
+        drops = [it for it in its if it["kind"] == "comp" and not any(isinstance(x, ast.Name) and x.id == getattr(it["target"].elts[0], "id", None) for x in ast.walk(getattr(it["node"], "elt", it["node"])))]
+        ctx.tri("4-recursive", mp, mp.node, False, bool(drops), "", "mapping keys are dropped from the key: mappings with equal values collide", "pairing of keys and converted values not recognised", key="mapping keeps keys")
     ctx.floor("3-order", n3, 9)
     ctx.floor("4-recursive", n4, 10)
 
-    # ---- 5 totality: sorted() over caller data only inside try/except TypeError
+
+def rule_total(ctx: Ctx) -> None:
+    fn, _b = _to_hashable_facts(ctx)
     n5 = 0
-    for f in [fn, *helpers.values(), *[x for x in ctx.prog.functions_in(MOD) if x.name == "_sorted"]]:
+    funcs = [fn, *[x for x in ctx.prog.functions_in(MOD) if x.name in ("_hashable_iterable", "_hashable_mapping", "_sorted")]]
+    for f in funcs:
         par = {id(c): p for p in ast.walk(f.node) for c in ast.iter_child_nodes(p)}
         for c in [c for c in walk_no_nested(f.node) if isinstance(c, ast.Call) and dotted(c.func) == "sorted"]:
             n5 += 1
             x: ast.AST = c
-            safe = False
-            in_handler = False
+            safe = in_handler = False
             while id(x) in par:
                 child, x = x, par[id(x)]
                 if isinstance(x, ast.ExceptHandler):
                     in_handler = True
                 if isinstance(x, ast.Try) and child in x.body and any(h.type is None or "TypeError" in ast.unparse(h.type) or dotted(h.type) == "Exception" for h in x.handlers):
                     safe = True
+            undecided = False
             if in_handler and not safe:
                 # the fallback itself: must sort by a key that is totally ordered (strings / tuples of strings)
-                keyed = any(k.arg == "key" for k in c.keywords)
-                ktxt = ast.unparse(c)
-                safe = keyed and ("repr(" in ktxt or "str(" in ktxt)
-            ctx.add("5-total", f, c, safe, "sorting is protected against incomparable items" if safe else
-                    "sorted() over caller data can raise TypeError for mutually incomparable items (e.g. {1, 'a'}) instead of producing a key", key=norm(c))
+                keyk = [k.value for k in c.keywords if k.arg == "key"]
+                ktxt = _callable_text(ctx, f, keyk[0]) if keyk else ""
+                safe = "repr(" in ktxt or "str(" in ktxt
+                undecided = bool(keyk) and not safe
+            ctx.tri("5-total", f, c, safe, not safe and not undecided, "sorting is protected against incomparable items",
+                    "sorted() over caller data can raise TypeError for mutually incomparable items (e.g. {1, 'a'}) instead of producing a key", "fallback sort key not recognised", key=f"sorted in {f.name}{' (fallback)' if in_handler else ''}")
     ctx.floor("5-total", n5, 1)
-    # every sort in to_hashable's unordered branches goes through a helper that is covered above
-    direct_sorted = [c for c in walk_no_nested(fn.node) if isinstance(c, ast.Call) and dotted(c.func) == "sorted"]
-    for c in direct_sorted:
-        pass  # already judged in the loop above (fn is included)
 
-    # ---- 6 identity attributes
+
+def rule_identity(ctx: Ctx) -> None:
+    fn, branches = _to_hashable_facts(ctx)
     n6 = 0
     for types, ret, if_node in branches:
         for t in types:
             if t not in IDENTITY:
                 continue
-            text = " ".join(ast.unparse(e) for e in _branch_exprs(ret, if_node)) + " " + ast.unparse(if_node)
-            attrs_used = {a.attr for e in _branch_exprs(ret, if_node) for a in ast.walk(e)
-                          if isinstance(a, ast.Attribute) and isinstance(a.value, ast.Name) and a.value.id == "obj"}
+            exprs, _regions = _payload(ctx, fn, ret, if_node)
+            attrs_used = {a.attr for e in exprs for a in ast.walk(e) if isinstance(a, ast.Attribute) and isinstance(a.value, ast.Name) and a.value.id == "obj"}
             for alts, why in IDENTITY[t].items():
                 n6 += 1
                 used = any(a in attrs_used for a in alts.split("|"))
-                lossy = ""
-                if t == "Series" and alts == "index" and not used:
-                    lossy = " (to_dict() keys lose order and duplicate labels)"
+                lossy = " (to_dict() keys lose order and duplicate labels)" if t == "Series" and alts == "index" and not used else ""
                 ctx.add("6-identity", fn, ret, used, f"{t}: key includes `{alts}`" if used else f"{t}: key does not include `{alts}` - {why}{lossy}", key=f"{t}.{alts}")
+            for e in exprs:
+                for c in [c for c in ast.walk(e) if isinstance(c, ast.Call) and isinstance(c.func, ast.Attribute) and c.func.attr in ("flatten", "ravel", "tobytes", "tolist", "reshape") and norm(c.func.value) == "obj"]:
+                    bad_order = [k for k in c.keywords if k.arg == "order" and not (isinstance(k.value, ast.Constant) and k.value.value == "C")]
+                    n6 += 1
+                    ctx.add("6-identity", fn, c, not bad_order, f"`{norm(c)}` flattens in logical (C) order" if not bad_order else
+                            f"`{norm(c)}` flattens in memory order: arrays with equal shape/dtype but different content (a transposed view) get the same key, equal C- and F-ordered arrays different ones", key=f"flatten-order {norm(c)[:40]}")
     ctx.floor("6-identity", n6, 9)
 
-    for c in [c for c in ast.walk(fn.node) if isinstance(c, ast.Call) and isinstance(c.func, ast.Attribute) and c.func.attr in ("flatten", "ravel", "tobytes", "tolist", "reshape") and norm(c.func.value) == "obj"]:
-        bad_order = [k for k in c.keywords if k.arg == "order" and not (isinstance(k.value, ast.Constant) and k.value.value == "C")]
-        n6 += 1
-        ctx.add("6-identity", fn, c, not bad_order, f"`{norm(c)}` flattens in logical (C) order" if not bad_order else
-                f"`{norm(c)}` flattens in memory order: arrays with equal shape/dtype but different content (a transposed view) get the same key, equal C- and F-ordered arrays different ones", key=f"flatten-order {norm(c)[:40]}")
-    # ---- 7 stable
-    bad = [c for r in all_returns for c in ast.walk(r) if isinstance(c, ast.Call) and dotted(c.func) in ("hash", "id")]
-    ctx.add("7-stable", fn, bad[0] if bad else fn.node, not bad, "no hash()/id() in any returned key" if not bad else "a returned key contains hash()/id(): differs between processes", key="no-hash-in-key")
+
+def rule_stable(ctx: Ctx) -> None:
+    fn, _b = _to_hashable_facts(ctx)
+    all_returns = [r for r in walk_no_nested(fn.node) if isinstance(r, ast.Return)]
+    d = Defs(fn)
+    bad = [c for r in all_returns if r.value is not None for c in ast.walk(d.resolve(r.value)) if isinstance(c, ast.Call) and dotted(c.func) in ("hash", "id")]
+    ctx.add("7-stable", fn, fn.node, not bad, "no hash()/id() in any returned key" if not bad else f"a returned key contains `{norm(bad[0])}`: differs between processes", key="no-hash-in-key")
     for hn in ("_pickle_key", "_cloudpickle_key"):
         h = ctx.prog.func(f"{MOD}.{hn}")
-        src = ast.unparse(h.node)
-        ok = "dumps(" in src and "md5" in src and "hash(" not in src.replace("hashlib", "")
-        ctx.add("7-stable", h, h.node, ok, f"{hn}: pickle bytes -> md5" if ok else f"{hn} no longer derives the name from pickle bytes + md5", key=f"def {hn}")
+        src = Scope(ctx, h).text()
+        unstable = [w for w in ("hash(", "id(") if w in src.replace("hashlib", "").replace("md5(", "")]
+        good = "dumps(" in src and any(w in src for w in ("md5", "sha1", "sha256", "blake2"))
+        ctx.tri("7-stable", h, h.node, good and not unstable, bool(unstable), f"{hn}: pickle bytes -> digest", f"{hn} uses {unstable}: the name differs between processes", f"{hn}: derivation not recognised", key=f"def {hn}")
+    # the canonical order of unordered containers must not depend on hash()/id() either
+    for f in [x for x in ctx.prog.functions_in(MOD) if x.name in ("_sorted", "_hashable_iterable", "_hashable_mapping", "to_hashable")]:
+        for c in [c for c in walk_no_nested(f.node) if isinstance(c, ast.Call) and dotted(c.func) in ("sorted", "_sorted", "min", "max")]:
+            for k in [k.value for k in c.keywords if k.arg == "key"]:
+                ktxt = _callable_text(ctx, f, k)
+                dep = [w for w in ("hash(", "id(") if w in ktxt]
+                ctx.add("7-stable", f, c, not dep, "the sort key is process-independent" if not dep else
+                        f"the canonical order is decided by {dep[0]}...): str hashes are randomised per process (PYTHONHASHSEED), so equal sets get different keys in different processes", key=f"sort-key {f.name} {norm(k)[:40]}")
     fp = ctx.prog.func(f"{MOD}.DiskCache._get_file_path")
-    ok = "_pickle_key(key)" in ast.unparse(fp.node)
-    ctx.add("7-stable", fp, fp.node, ok, "file name derives from _pickle_key(key)" if ok else "DiskCache file names no longer derive from _pickle_key(key)", key="def _get_file_path")
+    src = Scope(ctx, fp).text()
+    unstable = [w for w in ("hash(", "id(") if w in src.replace("hashlib", "").replace("md5(", "")]
+    ctx.tri("7-stable", fp, fp.node, "_pickle_key(" in src and not unstable, bool(unstable), "file name derives from _pickle_key(key)", f"DiskCache file names use {unstable}: they differ between processes", "file name derivation not recognised", key="def _get_file_path")
 
-    # ---- 8 sole key builders
-    sites = {
-        f"{MOD}.memoize.decorator.wrapper": ("key", {"try_to_hashable", "key_func"}),
-        "pipefunc.map._run._get_or_set_cache": ("cache_key", {"to_hashable"}),
-        "pipefunc._pipeline._cache.compute_cache_key": ("key", {"to_hashable"}),
-    }
-    for q, (var, allowed) in sites.items():
+
+BUILDERS = {"to_hashable", "try_to_hashable", "key_func"}
+
+
+def _cache_keys(f: FuncInfo, cache_names: set[str]) -> list[ast.AST]:
+    """Expressions used as keys of a cache object in `f`: cache.get(K) / cache.put(K, ..) / K in cache."""
+    out: list[ast.AST] = []
+    for n in ast.walk(f.node):
+        if isinstance(n, ast.Call) and isinstance(n.func, ast.Attribute) and n.func.attr in ("get", "put") and norm(n.func.value) in cache_names and n.args:
+            out.append(n.args[0])
+        if isinstance(n, ast.Compare) and len(n.ops) == 1 and isinstance(n.ops[0], (ast.In, ast.NotIn)) and norm(n.comparators[0]) in cache_names:
+            out.append(n.left)
+    return out
+
+
+def _all_defs(f: FuncInfo, name: str) -> list[ast.AST]:
+    return [s.value for s in ast.walk(f.node) if isinstance(s, ast.Assign) and any(isinstance(t, ast.Name) and t.id == name for t in s.targets)]
+
+
+def rule_sole(ctx: Ctx) -> None:  # noqa: C901
+    for q in (f"{MOD}.memoize.decorator.wrapper", "pipefunc.map._run._get_or_set_cache"):
         f = ctx.prog.func(q)
-        assigns = [s for s in walk_no_nested(f.node) if isinstance(s, ast.Assign) and any(isinstance(t, ast.Name) and t.id == var for t in s.targets)]
-        if not assigns:
-            raise AnalysisError(f"{q}: assignment to `{var}` not found")
-        for s in assigns:
-            used = {dotted(c.func).rsplit(".", 1)[-1] for c in ast.walk(s.value) if isinstance(c, ast.Call)}
-            ok = bool(used & allowed)
-            ctx.add("8-sole", f, s, ok, f"`{var}` built through {sorted(used & allowed)}" if ok else f"`{var}` is built without to_hashable: {norm(s.value)[:80]}", key=f"{var}=")
+        d = Defs(f)
+        keys = _cache_keys(f, {"cache"})
+        if not keys:
+            ctx.add("8-sole", f, f.node, None, "UNDECIDED: no cache.get/put/in with a key found", key="keys")
+            continue
+        seen: set[str] = set()
+        for k in keys:
+            vals = _all_defs(f, k.id) if isinstance(k, ast.Name) and k.id not in d.params else [k]
+            for v in vals:
+                txt = norm(d.resolve(v))
+                if txt in seen:
+                    continue
+                seen.add(txt)
+                used = {_last(dotted(c.func)) for c in ast.walk(d.resolve(v)) if isinstance(c, ast.Call)}
+                raw = [nm for nm in ("args", "kwargs") if any(isinstance(x, ast.Name) and x.id == nm for x in ast.walk(d.resolve(v)))]
+                ctx.tri("8-sole", f, v, bool(used & BUILDERS), not (used & BUILDERS) and bool(raw), f"cache key built through {sorted(used & BUILDERS)}",
+                        f"the cache key `{txt[:70]}` embeds {raw} without to_hashable: unhashable or order-dependent keys", f"key `{txt[:60]}` not traced to its construction", key=f"key {txt[:50]}")
+            if "map._run" in q:
+                full = " ".join(norm(d.resolve(v)) for v in vals)
+                ctx.tri("8-sole", f, vals[0] if vals else f.node, "output_name" in full, bool(vals) and bool(full) and any(b in full for b in BUILDERS) and "output_name" not in full and "func" not in full,
+                        "map cache key includes the function's output name", "map cache key lacks the function's output name: different functions with equal kwargs collide", key="cache_key has output_name")
     mw = ctx.prog.func(f"{MOD}.memoize.decorator.wrapper")
-    th = [c for c in ast.walk(mw.node) if isinstance(c, ast.Call) and dotted(c.func) == "try_to_hashable"]
-    ok = bool(th) and isinstance(th[0].args[0], ast.Tuple) and [norm(e) for e in th[0].args[0].elts] == ["args", "kwargs"]
-    ctx.add("8-sole", mw, th[0] if th else mw.node, ok, "memoize keys the pair (args, kwargs) as one object" if ok else
-            f"memoize hashes `{norm(th[0].args[0])[:50] if th else '?'}` instead of the pair (args, kwargs): different calls (positional vs keyword spellings) share a key", key="memoize-key-object")
-    gk = ctx.prog.func("pipefunc.map._run._get_or_set_cache")
-    s = next(s for s in walk_no_nested(gk.node) if isinstance(s, ast.Assign) and norm(s.targets[0]) == "cache_key")
-    ok = "func.output_name" in norm(s.value)
-    ctx.add("8-sole", gk, s, ok, "map cache key includes the function's output name" if ok else "map cache key lacks func.output_name: different functions with equal kwargs collide", key="cache_key has output_name")
+    th = [c for c in ast.walk(mw.node) if isinstance(c, ast.Call) and dotted(c.func) == "try_to_hashable" and c.args]
+    a = mw.node.args
+    va, kw = (a.vararg.arg if a.vararg else "args"), (a.kwarg.arg if a.kwarg else "kwargs")
+    if th:
+        hashed = Defs(mw).resolve(th[0].args[0])
+        pair = isinstance(hashed, (ast.Tuple, ast.List)) and sorted(norm(e) for e in hashed.elts) == sorted([va, kw])
+        names = {x.id for x in ast.walk(hashed) if isinstance(x, ast.Name)}
+        bare_arm = isinstance(hashed, ast.IfExp) and any(isinstance(arm, ast.Name) and arm.id in (va, kw) for arm in (hashed.body, hashed.orelse))
+        ctx.tri("8-sole", mw, th[0], pair, not {va, kw} <= names or bare_arm, f"memoize keys the pair ({va}, {kw}) as one object",
+                f"memoize hashes `{norm(hashed)[:60]}`: different calls (positional vs keyword spellings) can share a key", key="memoize-key-object")
     ck = ctx.prog.func("pipefunc._pipeline._cache.compute_cache_key")
-    r = [r for r in walk_no_nested(ck.node) if isinstance(r, ast.Return) and r.value is not None and not (isinstance(r.value, ast.Constant) and r.value.value is None)]
-    ok = bool(r) and "output_name" in norm(r[-1]) and "cache_key_items" in norm(r[-1])
-    ctx.add("8-sole", ck, r[-1] if r else ck.node, ok, "pipeline cache key = (output_name, root items)" if ok else "pipeline cache key lost the output name or the root items", key="return key")
+    ps = ck.param_names()
+    kwargs_p = ps[1] if len(ps) > 1 else "kwargs"
+    par = {id(c): p for p in ast.walk(ck.node) for c in ast.iter_child_nodes(p)}
+    raw_loads = []
+    n_loads = 0
+    for sub in [x for x in ast.walk(ck.node) if isinstance(x, ast.Subscript) and isinstance(x.value, ast.Name) and x.value.id == kwargs_p and isinstance(x.ctx, ast.Load)]:
+        n_loads += 1
+        y: ast.AST = sub
+        inside = False
+        while id(y) in par:
+            y = par[id(y)]
+            if isinstance(y, ast.Call) and _last(dotted(y.func)) in BUILDERS:
+                inside = True
+        if not inside:
+            raw_loads.append(sub)
+    ctx.tri("8-sole", ck, raw_loads[0] if raw_loads else ck.node, n_loads > 0 and not raw_loads, bool(raw_loads), "every argument value enters the pipeline cache key through to_hashable",
+            f"`{norm(raw_loads[0]) if raw_loads else ''}` enters the pipeline cache key without to_hashable", f"no `{kwargs_p}[...]` load found", key="values hashed")
+    d = Defs(ck)
+    rets = [r for r in walk_no_nested(ck.node) if isinstance(r, ast.Return) and r.value is not None and not (isinstance(r.value, ast.Constant) and r.value.value is None)]
+    if rets:
+        v = d.resolve(rets[-1].value)
+        has_name = any(isinstance(x, ast.Name) and x.id == ps[0] for x in ast.walk(v))
+        ctx.tri("8-sole", ck, rets[-1], has_name and isinstance(v, ast.Tuple) and len(v.elts) == 2, isinstance(v, ast.Tuple) and not has_name, "pipeline cache key = (output_name, root items)",
+                "the pipeline cache key lost the output name: different outputs with equal root arguments collide", key="return key")
+
+
+def check(ctx: Ctx) -> None:
+    for rule in (rule_tagged, rule_dispatch, rule_order_and_recursion, rule_total, rule_identity, rule_stable, rule_sole):
+        ctx.run(rule)
 
 
 F = "pipefunc/cache.py"
